@@ -50,9 +50,20 @@ func genPayload(r *sim.Rng) []byte {
 			sb.WriteString("\n")
 		}
 	}
+	// a tenth of the replies: a large body FIRST (partial data, a long listing) and what classifies
+	// the reply — an rpc-error or none — only behind it
+	bigFirst := r.Chance(1, 10)
+	if bigFirst {
+		sb.WriteString("<rpc-reply message-id=\"101\"><data>")
+		sb.WriteString(strings.Repeat("<i>z</i>", (4100+r.Intn(5000))/8))
+		sb.WriteString("</data>")
+	}
 	n := 1 + r.Intn(12)
 	for i := 0; i < n; i++ {
 		sb.WriteString(r.Pick(c02Frags))
+	}
+	if bigFirst && r.Bool() {
+		sb.WriteString("<rpc-error><error-severity>error</error-severity></rpc-error></rpc-reply>")
 	}
 	if r.Chance(1, 8) {
 		sb.WriteString(strings.Repeat("x", 90+r.Intn(1200)))
